@@ -1,0 +1,41 @@
+//! Verification hooks (feature `verif-hooks`).
+//!
+//! Re-exports and thin wrappers that make crate-private pieces reachable from an
+//! external verification harness. Nothing here changes the behaviour of the crate.
+
+#[cfg(feature = "client")]
+pub use crate::happy_eyeballs::{EyeballSet, HappyEyeballsError};
+
+#[cfg(feature = "server")]
+pub use crate::rewind::Rewind;
+
+#[cfg(feature = "server")]
+pub use crate::server::conn::auto::verif_read_version as read_version;
+
+#[cfg(feature = "client")]
+pub use crate::client::conn::transport::tcp::verif_get_host_and_port as tcp_get_host_and_port;
+
+#[cfg(feature = "client")]
+pub use crate::client::pool::verif::PoolSnapshot;
+
+/// Apply `SocketAddrs::sort_preferred`, then optionally `set_port`, then pop everything.
+#[cfg(feature = "client")]
+pub fn sort_preferred(
+    addrs: Vec<std::net::SocketAddr>,
+    prefer: Option<crate::client::conn::dns::IpVersion>,
+    sort: bool,
+    port: Option<u16>,
+) -> Vec<std::net::SocketAddr> {
+    let mut addrs: crate::client::conn::dns::SocketAddrs = addrs.into_iter().collect();
+    if let Some(port) = port {
+        addrs.set_port(port);
+    }
+    if sort {
+        addrs.sort_preferred(prefer);
+    }
+    let mut out = Vec::with_capacity(addrs.len());
+    while let Some(addr) = addrs.pop() {
+        out.push(addr);
+    }
+    out
+}
